@@ -258,3 +258,5 @@ def run(ctx):
                          "nameplates_id" in e["stmt"].cols):
                     ctx.ob("R05.rows", construct_of(e), False, e,
                            "a side row is re-labelled")
+
+EXPLANATION += ' Batch 6: messages are deleted in the transaction that deletes their mailbox row, keyed by its id (R05.incarnation); text columns keep text.'
